@@ -394,7 +394,7 @@ func check(rec *ev.Recorder, c Case) error {
 }
 
 func TestSchedules(t *testing.T) {
-	ev.Rapid(t, "schedules", 4000, 60000, func(t *rapid.T) {
+	ev.Rapid(t, "schedules", 4000, 400000, func(t *rapid.T) {
 		var c Case
 		n := rapid.IntRange(1, 30).Draw(t, "n")
 		for i := 0; i < n; i++ {
@@ -418,7 +418,7 @@ func TestSchedules(t *testing.T) {
 // TestEnumerate: all mode assignments x kinds for histories of <= 3 (quick) / 4 (thorough)
 // requests, deferred answers flushed at the end in both orders.
 func TestEnumerate(t *testing.T) {
-	maxN := ev.N(4, 5)
+	maxN := ev.N(4, 6)
 	rec := ev.New(prop, "enumerate", fmt.Sprintf("every assignment of {inside, after, free, defer} x {connect, createStream} to histories of 1..%d requests, deferred answers flushed in order and reversed; "+
 		"non-trivial = contains an inside step or a reversed flush", maxN))
 	rec.Exhaustive()
